@@ -1,5 +1,5 @@
 (** Property C01 — the compiled transaction is exactly what the template denotes. *)
-From Tx3 Require Import Base Assets Tir Reduce Surface Lower Denote C01_proofs.
+From Tx3 Require Import Base Assets Assets_proofs Tir Reduce Surface Lower Denote C01_proofs C01_args C01_assets.
 
 (** closed integer arithmetic (literals, +, -, unary !, of any shape and nesting): lowering the
     source tree and reducing the IR yields exactly the integer the independent semantics
@@ -15,5 +15,43 @@ Theorem C01_subtraction_associates_left :
   ival (SSubE (SSubE (SNum 10) (SNum 4)) (SNum 3)) = Some 3%Z /\ ival (SSubE (SNum 10) (SSubE (SNum 4) (SNum 3))) = Some 9%Z.
 Proof. exact sub_chain_left. Qed.
 
+(** the same with integer parameters: for every choice of integer arguments, lower + apply the
+    arguments + reduce = the semantics' value under those arguments *)
+Theorem C01_integer_parameters_exact : forall p t args env pick f d c e v,
+  de_args env = args -> pval p t args e = Some v -> (sdepth e <= f)%nat ->
+  exists ir, lower_expr p t f (S d) c e = Ok ir
+             /\ reduce pick f (apply_args args ir) = Ok (ENumber v)
+             /\ eval p t env f c e = Some (VInt v).
+Proof. exact int_params_pipeline_is_denotation. Qed.
+
+(** multi-asset amounts: for closed amount expressions over asset constructors (Ada, declared
+    assets), +, - and unary !, whose intermediate amounts are representable, lowering followed
+    by reduction yields a constant asset list that reads back - class by class - as exactly the
+    multi-asset value the semantics assigns *)
+Theorem C01_multi_asset_arithmetic_exact : forall p t e a, aden p t e a -> forall pick f d c, (adepth e <= f)%nat ->
+  exists ir, lower_expr p t f (S d) c e = Ok ir /\
+  exists xs a', reduce pick f ir = Ok (EAssets xs) /\ is_constant (EAssets xs) = true /\ expr_assets xs = Ok a' /\ a' ≈ a.
+Proof. intros p t e a H pick f d c Hf. destruct (assets_pipeline p t e a H pick f d c Hf) as [ir [Hl Hg]]. exists ir. split; [exact Hl|exact Hg]. Qed.
+
+Theorem C01_multi_asset_denotation : forall p t e a, aden p t e a -> forall env f c, (adepth e <= f)%nat ->
+  eval p t env f c e = Some (VAssets a).
+Proof. exact assets_denotation. Qed.
+
+(** non-vacuity: Ada(5) + Tok(7) - Ada(2) is in the fragment *)
+Example C01_assets_example :
+  let p := mk_sprogram [] [] [] [("Tok"%string, SHex [1;2;3]%N, SStr [84]%N)] [] [] in
+  let t := mk_stx "t" [] [] [] [] [] [] [] [] None None None [] in
+  exists a, aden p t (SSubE (SAddE (SCall "Ada" [SNum 5]) (SCall "Tok" [SNum 7])) (SCall "Ada" [SNum 2])) a /\ get0 a Naked = 3%Z.
+Proof.
+  cbv zeta. eexists. split.
+  - eapply AD_sub; [eapply AD_add; [eapply AD_call with (pb := []) (nb := []) | eapply AD_call with (pb := [1;2;3]%N) (nb := [84]%N) | ]| eapply AD_call with (pb := []) (nb := []) | | ];
+      try reflexivity; try (repeat split; discriminate);
+      intros k; rewrite ?get0_add, ?get0_singleton; repeat (destruct (decide _)); reflexivity.
+  - vm_compute. reflexivity.
+Qed.
+
+Print Assumptions C01_integer_parameters_exact.
+Print Assumptions C01_multi_asset_arithmetic_exact.
+Print Assumptions C01_multi_asset_denotation.
 Print Assumptions C01_integer_arithmetic_exact.
 Print Assumptions C01_subtraction_associates_left.
